@@ -42,6 +42,8 @@ def use_repo():
         raise MachineryFailure("kmip resolved to %s, expected %s" % (got, REPO))
     import logging
     logging.getLogger("kmip").setLevel(logging.INFO)
+    logging.getLogger("kmip").addHandler(logging.NullHandler())
+    logging.lastResort = None
     return kmip
 
 
@@ -117,6 +119,7 @@ class Run(object):
         self.known = {}            # finding text -> count
         self.drift = 0
         self.drift_samples = []
+        self.drift_kinds = {}
         self.assumptions = []
         self.extra = {}
         self.rule = ""
@@ -144,8 +147,13 @@ class Run(object):
             self.samples.append(obj)
 
     def note_drift(self, what):
+        """Model drift: an observed step that is not a step of the specification although no
+        property predicate failed. Reported and counted, never an alarm."""
         self.drift += 1
-        if len(self.drift_samples) < 10:
+        kind = jdump({k: v for k, v in what.items() if k not in ("tid", "i")})
+        n = self.drift_kinds.get(kind, 0)
+        self.drift_kinds[kind] = n + 1
+        if n == 0 and len(self.drift_samples) < 40:
             self.drift_samples.append(what)
             print("DRIFT %s %s" % (self.pid, jdump(what)[:400]))
 
@@ -192,6 +200,7 @@ class Run(object):
             "tlc_runs": self.tlc_runs,
             "model_drift": self.drift,
             "model_drift_samples": self.drift_samples,
+            "model_drift_kinds": self.drift_kinds,
             "known_findings_seen": self.known,
         }
         cov.update(self.extra)
